@@ -757,3 +757,37 @@ Definition xor2_run_script (bytes : list Z) (acts : list act) : option (list obs
   | hi :: lo :: hdr :: rest => x2_script (hi * 256 + lo) (mkC2 (x2it_init hdr) (unpack_bytes rest) false) acts
   | _ => None
   end.
+
+(* ============================================================================================ *)
+(* Specification of an iterator as a cursor over the appended samples (used by holds and by the   *)
+(* Seek theorems; it does not refer to any encoding)                                             *)
+(* ============================================================================================ *)
+
+(* abstract cursor semantics of Next/Seek over the appended samples: [cur] is the sample the
+   iterator stands on, [rest] what is still ahead.  Seek t stays put if the current sample
+   already has timestamp >= t, otherwise advances to the first sample ahead with
+   timestamp >= t (ValNone, standing on the last sample, if there is none). *)
+Fixpoint seek_rest (t : Z) (cur : option sample) (rest : list sample) : option sample * list sample * bool :=
+  match rest with
+  | [] => (cur, [], false)
+  | x :: r => if t <=? s_t x then (Some x, r, true) else seek_rest t (Some x) r
+  end.
+
+Fixpoint spec_script (cur : option sample) (rest : list sample) (acts : list act) : list obs1 :=
+  match acts with
+  | [] => []
+  | ANext :: r =>
+      match rest with
+      | [] => None :: spec_script cur rest r
+      | x :: rest' => Some x :: spec_script (Some x) rest' r
+      end
+  | ASeek t :: r =>
+      match cur with
+      | Some c0 => if t <=? s_t c0 then Some c0 :: spec_script cur rest r
+                   else let '(cur', rest', ok) := seek_rest t cur rest in
+                        (if ok then cur' else None) :: spec_script cur' rest' r
+      | None => let '(cur', rest', ok) := seek_rest t cur rest in
+                (if ok then cur' else None) :: spec_script cur' rest' r
+      end
+  end.
+
